@@ -5,6 +5,7 @@ recovery stays wired, result wrappers tolerate names without position, dispatch 
 the grammar, tree navigation at the API boundary is None-checked, jedi's internal control-flow
 exceptions are contained."""
 import ast
+import os
 
 from ..core import AnchorError, atoms, call_name, decorators, dotted_text, names_in, norm, short, own_nodes, kwarg, FUNC_TYPES
 from ..cfg import cfg_of
@@ -780,6 +781,11 @@ TRIAGED_SIBLINGS = {
     ('jedi.api.file_name', '_add_os_path_join', 'searched_node.children.index(searched_node_child)'):
         'searched_node is the parent the preceding while-loop stopped at: its type is one of arglist/trailer/error_node and every use below '
         'is under a test of searched_node.type',
+    ('jedi.inference.context', 'TreeContextMixin.create_context.from_scope_node', "sync_comp_for.children.index('in')"):
+        'the branch is entered for scope_node.type in (comp_for, sync_comp_for) only; a comp_for node exists only as [async, sync_comp_for] '
+        '(grammar: comp_for: [async] sync_comp_for - without `async` parso hands out the sync_comp_for itself), and the local is replaced by '
+        'that child under a test of its type, so it is a sync_comp_for: `for` exprlist `in` or_test [comp_iter] (checked by C01.r for the '
+        'direct form; the pre-repair form `scope_node.children.index(\'in\')` is what C01.r reports)',
     ('jedi.inference.value.dynamic_arrays', '_internal_check_array_additions', 'power.children.index(trailer)'):
         'the neighbour is fetched under try/except IndexError and its type and first child are tested before use',
 }
@@ -1492,5 +1498,60 @@ def rule_q(repo, chk):
     chk.floor('C01.q', n, 3, '(.name of nodes that can be lambdas)')
 
 
+def _mandatory_literals(g, rule):
+    """literal tokens that are direct, unconditional children in EVERY alternative of the production (outside [..] and (..) groups)"""
+    out = None
+    for alt in g.alternatives(rule):
+        depth, lits = 0, set()
+        for t in alt:
+            if t in '([':
+                depth += 1
+            elif t in ')]':
+                depth -= 1
+            elif depth == 0 and len(t) >= 2 and t[0] in '\'"':
+                lits.add(t.strip('\'"'))
+        out = lits if out is None else (out & lits)
+    return out or set()
+
+
+def rule_r(repo, chk):
+    chk.clause('C01.r', '`X.children.index(<token>)` raises ValueError when the node has no such child: where the type of X is known from a '
+                        'dominating test, the production of EVERY such type (parso grammar file) must have the token as an unconditional direct '
+                        'child (comp_for = [async] sync_comp_for has no `in`: the keyword sits one level down); package-wide')
+    from .. import grammar as G
+    g = G.Grammar('3.12')
+    chk.trust('parso grammar file %s (productions)' % os.path.basename(g.path))
+    n = undecided = 0
+    for m in sorted(repo.modules.values(), key=lambda m: m.name):
+        for q, f in sorted(m.defs.items()):
+            if not isinstance(f, FUNC_TYPES):
+                continue
+            for x in own_nodes(f):
+                if not (isinstance(x, ast.Call) and isinstance(x.func, ast.Attribute) and x.func.attr == 'index' and len(x.args) == 1
+                        and isinstance(x.args[0], ast.Constant) and isinstance(x.args[0].value, str)
+                        and isinstance(x.func.value, ast.Attribute) and x.func.value.attr == 'children'):
+                    continue
+                subject = norm(x.func.value.value)
+                tok = x.args[0].value
+                types = set()
+                for e, pol in dominating_facts(f, x):
+                    if isinstance(e, ast.Compare) and len(e.ops) == 1 and isinstance(e.left, ast.Attribute) and e.left.attr == 'type' \
+                            and norm(e.left.value) == subject and ((isinstance(e.ops[0], (ast.Eq, ast.In)) and pol) or
+                                                                   (isinstance(e.ops[0], (ast.NotEq, ast.NotIn)) and not pol)):
+                        c0 = e.comparators[0]
+                        types |= {v.value for v in c0.elts if isinstance(v, ast.Constant)} if isinstance(c0, (ast.Tuple, ast.List, ast.Set)) else \
+                            ({c0.value} if isinstance(c0, ast.Constant) else set())
+                if not types:
+                    undecided += 1
+                    continue
+                n += 1
+                lacking = sorted(t for t in types if t in g.rules and tok not in _mandatory_literals(g, t))
+                chk.ob('C01.r', not lacking, x, '`%s` in %s: every node type it is applied to (%s) has the child %r' % (short(x, 50), q, '/'.join(sorted(types)), tok),
+                       'no unconditional direct %r child in the production of: %s' % (tok, ', '.join('%s: %s' % (t, ' '.join(g.rules[t])) for t in lacking)),
+                       key='index-token|%s:%s|%s' % (m.name, q, norm(x)))
+    chk.notes['C01.r children.index(<token>) sites without type knowledge (not decided)'] = undecided
+    chk.floor('C01.r', n, 2, '(children.index(<token>) on nodes of known type)')
+
+
 RULES = [('C01.a', rule_a), ('C01.b', rule_b), ('C01.c', rule_c), ('C01.d', rule_d), ('C01.e', rule_e), ('C01.f', rule_f),
-         ('C01.g', rule_g), ('C01.h', rule_h), ('C01.i', rule_i), ('C01.j', rule_j), ('C01.k', rule_k), ('C01.l', rule_l), ('C01.m', rule_m), ('C01.n', rule_n), ('C01.o', rule_o), ('C01.p', rule_p), ('C01.q', rule_q)]
+         ('C01.g', rule_g), ('C01.h', rule_h), ('C01.i', rule_i), ('C01.j', rule_j), ('C01.k', rule_k), ('C01.l', rule_l), ('C01.m', rule_m), ('C01.n', rule_n), ('C01.o', rule_o), ('C01.p', rule_p), ('C01.q', rule_q), ('C01.r', rule_r)]
